@@ -45,7 +45,7 @@ KERNELS = {
 NAT_KERNELS = {"_check_regular_chunks", "to_chunksize"}
 
 GEN_HEADER = r"""
-From CubedV Require Import Model.Util Model.Memory Model.Rechunk Model.Regular Model.Dag Model.FuseGuard Model.Admission Model.Resume Model.Events Model.SpecCfg Model.Geometry Model.StoreRegion Model.StoreGuard Proofs.StoreGuardProofs Proofs.GeometryProofs Proofs.SpecCfgProofs Proofs.MemoryProofs Proofs.FuseGuardProofs Proofs.AdmissionProofs Proofs.ResumeProofs Proofs.EventsProofs.
+From CubedV Require Import Model.Util Model.Memory Model.Rechunk Model.Regular Model.Dag Model.FuseGuard Model.Admission Model.Resume Model.Events Model.SpecCfg Model.Geometry Model.StoreRegion Model.StoreGuard Model.StridedIndex Model.IndexGuard Proofs.StoreGuardProofs Proofs.StridedIndexProofs Proofs.IndexGuardProofs Proofs.GeometryProofs Proofs.SpecCfgProofs Proofs.MemoryProofs Proofs.FuseGuardProofs Proofs.AdmissionProofs Proofs.ResumeProofs Proofs.EventsProofs.
 From Gen Require Import Gen.
 Local Open Scope Z_scope.
 
@@ -156,7 +156,8 @@ ADMISSION_KERNELS = ["Plan._find_ops_exceeding_memory", "FinalizedPlan.validate"
                      "skip_node", "visit_nodes", "visit_node_generations",
                      "Spec.__eq__", "check_array_specs",
                      "_cumsum", "get_item", "ChunkKeys.__iter__", "general_blockwise.num_tasks",
-                     "_store_array.region_guards", "general_blockwise.projected_mem"]
+                     "_store_array.region_guards", "general_blockwise.projected_mem",
+                     "index.chunk_len_for_indexer", "index.merged_chunk_len_for_indexer", "_index_num_input_blocks"]
 
 EQUIV.update({
     "is_fuse_candidate": r"""
@@ -312,6 +313,32 @@ Corollary source_blockwise_projected_closed : forall reserved extra rc wc ins ou
   gen_general_blockwise_projected_mem reserved extra rc wc ins outs
   = reserved + sumz (map (fun i => i * (rc + 1)) ins) + extra + fold_left Z.max outs 0 * (wc + 1).
 Proof. intros. rewrite gen_general_blockwise_projected_mem_equiv. unfold blockwise_projected. apply calc_projected_closed. Qed.
+""",
+    "index.chunk_len_for_indexer": r"""
+Theorem gen_chunk_len_for_indexer_equiv : forall ia c, gen_chunk_len_for_indexer ia c = chunk_lenZ ia c.
+Proof. intros [| | |] c; reflexivity. Qed.
+""",
+    "index.merged_chunk_len_for_indexer": r"""
+Theorem gen_merged_chunk_len_for_indexer_equiv : forall ia c, gen_merged_chunk_len_for_indexer ia c = merged_chunk_lenZ ia c.
+Proof. intros [| | |] c; reflexivity. Qed.
+(* the chunk length index() merges to is a positive multiple of the chunk length it selected with: merge_chunks' requirement *)
+Corollary source_merged_multiple : forall start stop c step, 0 < c -> 0 < step ->
+  exists k, 0 < k /\ gen_merged_chunk_len_for_indexer (IxSlice start stop step) c = k * gen_chunk_len_for_indexer (IxSlice start stop step) c.
+Proof. intros. rewrite gen_merged_chunk_len_for_indexer_equiv, gen_chunk_len_for_indexer_equiv. now apply merged_multiple. Qed.
+""",
+    "_index_num_input_blocks": r"""
+Theorem gen_index_axis_factor_equiv : forall ia c oc nb, gen_index_axis_factor ia c oc nb = index_axis_factorZ ia c oc nb.
+Proof. intros [| | |] c oc nb; reflexivity. Qed.
+Theorem gen__index_num_input_blocks_equiv : forall axes, gen__index_num_input_blocks axes = index_num_input_blocksZ axes.
+Proof. intros. reflexivity. Qed.
+(* the factor the source charges an axis indexed by a strided slice covers the input blocks any output block reads *)
+Corollary source_index_factor_covers : forall n c start step L j,
+  (0 < c)%nat -> (0 < step)%nat -> (0 < L)%nat -> (start + (L - 1) * step < n)%nat ->
+  (j < num_out_blocks (out_chunk_len c step) L)%nat ->
+  exists f, gen_index_axis_factor (IxSlice (Z.of_nat start) (Z.of_nat (canonical_stop start step L)) (Z.of_nat step))
+                                  (Z.of_nat c) (Z.of_nat (out_chunk_len c step)) (Z.of_nat ((n + c - 1) / c)) = Some f /\
+            Z.of_nat (length (touched_chunks c (block_positions start step (out_chunk_len c step) L j))) <= f.
+Proof. intros. rewrite gen_index_axis_factor_equiv. now apply source_factor_covers_touched. Qed.
 """,
     "skip_node": r"""
 Theorem gen_skip_node_spec : forall hp c, gen_skip_node hp c = negb hp || c.
@@ -740,6 +767,85 @@ def translate_admission(name, repo):
         return ("Definition gen_get_item (chunks : list (list nat)) (idx : list nat) : list (nat * nat) :=\n"
                 "  let starts := map (fun c => gen__cumsum c true) chunks in\n"
                 "  let loc := map2 (fun i start => (nth i start 0, nth (i + 1) start 0))%nat idx starts in\n  loc.\n")
+    if name in ("index.chunk_len_for_indexer", "index.merged_chunk_len_for_indexer", "_index_num_input_blocks"):
+        itree = ast.parse((Path(repo) / "cubed/core/indexing.py").read_text())
+
+        class TrIx(Tr):
+            """expressions over an index entry `ia` already known to be a slice (fields ia.start / ia.stop / ia.step are Z)"""
+            def expr(self, e):
+                if (isinstance(e, ast.Compare) and len(e.ops) == 1 and isinstance(e.ops[0], ast.IsNot) and isinstance(e.comparators[0], ast.Constant)
+                        and e.comparators[0].value is None and U(e.left) == "ia.step"):
+                    return "true"          # ndindex's expanded slices always carry a step
+                if isinstance(e, ast.Call) and isinstance(e.func, ast.Name) and e.func.id == "isinstance" and len(e.args) == 2 and U(e.args[0]) == "ia":
+                    k = {"ndindex.Integer": "is_ixint", "ndindex.IntegerArray": "is_ixarr"}.get(U(e.args[1]))
+                    if k:
+                        return f"({k} ia)"
+                return super().expr(e)
+
+        def is_slice_test(t, neg=False):
+            if neg:
+                return isinstance(t, ast.UnaryOp) and isinstance(t.op, ast.Not) and U(t.operand) == "isinstance(ia, ndindex.Slice)"
+            return U(t) == "isinstance(ia, ndindex.Slice)"
+
+        tr = TrIx([("ia", {"start": "Z", "stop": "Z", "step": "Z"})])
+        if name.startswith("index."):
+            outer = next((n for n in itree.body if isinstance(n, ast.FunctionDef) and n.name == "index"), None)
+            inner = name.split(".")[1]
+            fn = next((n for n in (outer.body if outer else []) if isinstance(n, ast.FunctionDef) and n.name == inner), None)
+            if fn is None or [a.arg for a in fn.args.args] != ["ia", "c"]:
+                raise TranslationError(f"{name}: not found / signature")
+            b = _nodoc(fn.body)
+            if not (b and isinstance(b[0], ast.If) and not b[0].orelse and is_slice_test(b[0].test, neg=True) and [U(x) for x in b[0].body] == ["return c"]):
+                raise TranslationError(f"{name}: must start with `if not isinstance(ia, ndindex.Slice): return c`")
+
+            def chain(rest):
+                if not rest:
+                    raise TranslationError(f"{name}: falls off the end")
+                s0 = rest[0]
+                if isinstance(s0, ast.Return):
+                    return tr.expr(s0.value)
+                if isinstance(s0, ast.If) and not s0.orelse and len(s0.body) == 1 and isinstance(s0.body[0], ast.Return):
+                    return f"if {tr.expr(s0.test)} then {tr.expr(s0.body[0].value)} else {chain(rest[1:])}"
+                raise TranslationError(f"{name}: statement at line {s0.lineno}")
+            body = chain(b[1:])
+            return (f"Definition gen_{inner} (ia : ixZ) (c : Z) : Z :=\n"
+                    f"  match ia with IxSlice ia_start ia_stop ia_step => ({body})%Z | _ => c end.\n")
+        fn = next((n for n in itree.body if isinstance(n, ast.FunctionDef) and n.name == "_index_num_input_blocks"), None)
+        if fn is None or [a.arg for a in fn.args.args] != ["idx", "in_chunksizes", "out_chunksizes", "numblocks"]:
+            raise TranslationError("_index_num_input_blocks: not found / signature")
+        b = _nodoc(fn.body)
+        if not (len(b) == 3 and U(b[0]) == "num = 1" and isinstance(b[1], ast.For) and not b[1].orelse and U(b[1].target) == "(ia, c, oc, nb)"
+                and U(b[1].iter) == "zip(idx.args, in_chunksizes, out_chunksizes, numblocks)" and U(b[2]) == "return num" and len(b[1].body) == 1):
+            raise TranslationError("_index_num_input_blocks: shape")
+
+        def mult(stmts, in_slice):
+            """the factor the statements multiply `num` by (Some k), or None when they raise"""
+            if not stmts:
+                return "Some (1)"
+            if len(stmts) != 1:
+                raise TranslationError("_index_num_input_blocks: one statement per branch expected")
+            s0 = stmts[0]
+            if isinstance(s0, ast.Pass):
+                return "Some (1)"
+            if isinstance(s0, ast.AugAssign) and isinstance(s0.op, ast.Mult) and U(s0.target) == "num":
+                return f"Some {tr.expr(s0.value)}"
+            if isinstance(s0, ast.Raise):
+                return "None"
+            if isinstance(s0, ast.If):
+                if is_slice_test(s0.test):
+                    if in_slice:
+                        raise TranslationError("nested slice test")
+                    return (f"match ia with IxSlice ia_start ia_stop ia_step => {mult(s0.body, True)} | _ => {mult(s0.orelse, False)} end")
+                if not in_slice and any(isinstance(n, ast.Attribute) and U(n.value) == "ia" for n in ast.walk(s0.test)):
+                    raise TranslationError("field of ia used outside the slice branch")
+                return f"if {tr.expr(s0.test)} then {mult(s0.body, in_slice)} else {mult(s0.orelse, in_slice)}"
+            raise TranslationError(f"_index_num_input_blocks: statement at line {s0.lineno}")
+        body = mult(b[1].body, False)
+        return (f"Definition gen_index_axis_factor (ia : ixZ) (c oc nb : Z) : option Z :=\n  ({body})%Z.\n"
+                "Definition gen__index_num_input_blocks (axes : list (ixZ * Z * Z * Z)) : option Z :=\n"
+                "  fold_left (fun num (t : ixZ * Z * Z * Z) =>\n"
+                "     match num, gen_index_axis_factor (fst (fst (fst t))) (snd (fst (fst t))) (snd (fst t)) (snd t) with\n"
+                "     | Some a, Some m => Some (a * m)%Z | _, _ => None end) axes (Some 1%Z).\n")
     if name == "general_blockwise.projected_mem":
         btree = ast.parse((Path(repo) / "cubed/primitive/blockwise.py").read_text())
         fn = next((n for n in btree.body if isinstance(n, ast.FunctionDef) and n.name == "general_blockwise"), None)
@@ -1206,7 +1312,7 @@ def check(names=None, repo=None, tag="all"):
     except Exception as e:
         return False, f"translation failed: {type(e).__name__}: {e}", ""
     text = ("(* GENERATED on every run from /repo by harness/translate.py - do not edit *)\n"
-            "From CubedV Require Import Model.Util Model.Memory Model.Rechunk Model.Regular Model.Dag Model.FuseGuard Model.Admission Model.Resume Model.SpecCfg Model.Geometry Model.StoreGuard.\nLocal Open Scope Z_scope.\n\n" + "\n".join(defs))
+            "From CubedV Require Import Model.Util Model.Memory Model.Rechunk Model.Regular Model.Dag Model.FuseGuard Model.Admission Model.Resume Model.SpecCfg Model.Geometry Model.StoreGuard Model.IndexGuard.\nLocal Open Scope Z_scope.\n\n" + "\n".join(defs))
     (gen / "Gen.v").write_text(text)
     (gen / "GenEquiv.v").write_text(GEN_HEADER + "".join(EQUIV[n] for n in order))
     for f in ("Gen.v", "GenEquiv.v"):
